@@ -48,7 +48,8 @@ def unit_list():
 
 def _dump_one(args):
     src, out, flags = args
-    cmd = [ASTDUMP, src, "-o", out, "--root", REPO, "--"] + flags
+    root = REPO if os.path.abspath(src).startswith(os.path.abspath(REPO) + os.sep) else os.path.dirname(os.path.abspath(src))
+    cmd = [ASTDUMP, src, "-o", out, "--root", root, "--"] + flags
     p = subprocess.run(cmd, stdout=subprocess.PIPE, stderr=subprocess.PIPE, text=True)
     if p.returncode != 0 or not os.path.exists(out):
         return (src, p.stderr[-2000:])
